@@ -1034,7 +1034,31 @@ class Discharger:
                     kv = self.ctx.folder.fold(it.args[0], g.module)
                     if isinstance(kv, (tuple, list)) and kv and all(isinstance(x, str) for x in kv):
                         ks = set(kv)
-            if isinstance(r, ast.Call) and src(r.func) == "dict":
+            if isinstance(r, ast.Call) and src(r.func) == "dict" and len(r.args) == 1 and not r.keywords and isinstance(r.args[0], ast.Call) and src(r.args[0].func) == "zip" and len(r.args[0].args) == 2 and isinstance(r.args[0].args[1], ast.Name):
+                # dict(zip((<constant keys>), fields)) with `*fields, tail = (s.strip() for s in <regex tuple>)`: one key per
+                # leading group when the counts agree
+                kv = self.ctx.folder.fold(r.args[0].args[0], g.module, self.ctx.folder.local_env(g))
+                vals = r.args[0].args[1].id
+                n_vals = None
+                for st_ in own_nodes(g.node):
+                    if isinstance(st_, ast.Assign) and len(st_.targets) == 1 and isinstance(st_.targets[0], ast.Tuple) and isinstance(st_.value, (ast.GeneratorExp, ast.ListComp)) and len(st_.value.generators) == 1 and isinstance(st_.value.generators[0].iter, ast.Name):
+                        elts = st_.targets[0].elts
+                        stars = [e for e in elts if isinstance(e, ast.Starred)]
+                        if len(stars) == 1 and isinstance(stars[0].value, ast.Name) and stars[0].value.id == vals:
+                            ng = self.regex_groups_of(g, st_.value.generators[0].iter.id)
+                            if ng is not None:
+                                n_vals = ng - (len(elts) - 1)
+                if isinstance(kv, (tuple, list)) and kv and all(isinstance(x, str) for x in kv) and n_vals is not None and n_vals >= len(kv):
+                    ks = set(kv)
+                    # ... plus what `<result>.update(<package function>(...))` adds on this path
+                    if isinstance(p.ret, ast.Name):
+                        for nd_, _l in p.nodes:
+                            if nd_.kind == "stmt" and isinstance(nd_.ast, ast.Expr) and isinstance(nd_.ast.value, ast.Call) and isinstance(nd_.ast.value.func, ast.Attribute) and nd_.ast.value.func.attr == "update" and src(nd_.ast.value.func.value) == p.ret.id and len(nd_.ast.value.args) == 1 and isinstance(nd_.ast.value.args[0], ast.Call) and depth < 3:
+                                for h_ in self._callees(g, nd_.ast.value.args[0]):
+                                    more = self._returned_keys(h_, depth + 1)
+                                    if more:
+                                        ks |= more
+            elif isinstance(r, ast.Call) and src(r.func) == "dict":
                 ks = {k.arg for k in r.keywords if k.arg}
             elif isinstance(r, ast.Dict):
                 if not r.keys:
